@@ -28,7 +28,7 @@ def run(ctx):
     # keys whose total height lies in 32..63 bits (counter arithmetic beyond 32 bits), affordable because every tree is an H5 tree
     specs += [("S16", [(3, 5)] * 7, rng.bytes_(16)), ("K16", [(2, 5)] * 8, rng.bytes_(16))]
     if ctx.tier == "thorough":
-        specs += [("S24", [(3, 5), (2, 5), (3, 5), (3, 5), (2, 5), (3, 5), (3, 5)], rng.bytes_(24)), ("S32", [(4, 5)] * 7, rng.bytes_(32))]
+        specs += [("S24", [(3, 5), (2, 5), (3, 5), (3, 5), (2, 5), (3, 5), (3, 5)], rng.bytes_(24)), ("S32", [(3, 5)] * 6 + [(4, 5)], rng.bytes_(32))]
     keys = make_keys(ctx, specs, proj_class)
     fills = [Case(keygen_line(k.H, k.params, k.seed, bytes(1200)), "keygen/aux", {"key": k}) for k in keys]
     auxof = {}
